@@ -234,7 +234,7 @@ for prop in ("C03", "C04", "C05"):
           forall="concrete shape (type bytes assigned), every counter of the complete lifetime, every seed, both callback outcomes: lifetime query, one signing call, "
                  "callback count / argument / result, leaf index of every level in the released record",
           bounds="n=16, W8; both HSS-level operations by contract")
-for prop in ("C03", "C05"):
+for prop in ("C03", "C05", "C01"):
     for name, cfg, tier in (("c03_expand_and_sign_h20", "l1w8", "quick"), ("c03_expand_and_sign_h25_h5", "l2w8", "experimental"), ("c03_expand_and_sign_h5_h10_h25", "l3w8", "experimental")):
         H(prop, tier, "c04", name, config=cfg, timeout=7200, model="HavocSum16", unwind=36, replayable=False, stubs=_contract_stubs,
           encodes=["ReferenceImplPrivateKey::from_binary_representation", "HssPrivateKey::from / get_lifetime", "HssSignature::sign", "CompressedUsedLeafsIndexes::to"],
@@ -317,7 +317,7 @@ for prop in ("C02", "C06"):
 # transcripts under the recording hashers: derivation (C08), signing content (C07), tree identity (C03)
 _rec = "RecN: digests come from a symbolic tape, every query's first 64 bytes, length and a fingerprint of the whole query are recorded"
 for n in (16, 24, 32):
-    for prop in ("C08", "C09") if n == 32 else ("C08",):
+    for prop in ("C08", "C09") if n == 32 else ("C08", "C01"):
         H(prop, "quick", "c08d", f"c08_root_seed_derivation_n{n}", timeout=900, model=_rec, encodes=["ReferenceImplPrivateKey::generate_root_seed_and_lms_tree_identifier", "Seed::from / as_slice"],
           forall="every 32-byte seed container content, every digest value", bounds="exact", unwind=70)
     for prop in ("C08", "C03", "C07"):
